@@ -168,8 +168,11 @@ void rsValuesFacet::PruneStructure(const EntityUID target) {
     return;
   } 
   const auto& typeValue = core.GetParse(target).exprType;
-  assert(typeValue.has_value());
-  // NOLINTNEXTLINE(bugprone-exception-escape, bugprone-unchecked-optional-access)
+  if (!typeValue.has_value() || !std::holds_alternative<rslang::Typification>(typeValue.value())) {
+    // Note: definition has lost its type (e.g. its base set was erased), no element is valid anymore
+    storage->Erase(target);
+    return;
+  }
   const auto& type = std::get<rslang::Typification>(typeValue.value());
   if (!oldData->IsCollection()) {
     if (!CheckBasicElements(oldData.value(), type)) {
